@@ -183,6 +183,27 @@ impl<'r, L: Language> CombinedScan<'r, L> {
         suppression_nodes.insert(node.node_id(), node.clone());
       }
       let kind = node.kind_id() as usize;
+      #[cfg(feature = "verif-hooks")]
+      for (idx, rule) in self.rules.iter().enumerate() {
+        let dispatched = self
+          .kind_rule_mapping
+          .get(kind)
+          .is_some_and(|v| v.contains(&idx));
+        if !dispatched && rule.matcher.potential_kinds().is_some() {
+          ast_grep_core::verif::prune(
+            "config.combined.kind_dispatch",
+            || rule.matcher.match_node(node.clone()).is_some(),
+            || {
+              format!(
+                "rule={} kind={} range={:?}",
+                rule.id,
+                node.kind(),
+                node.range()
+              )
+            },
+          );
+        }
+      }
       let Some(rule_idx) = self.kind_rule_mapping.get(kind) else {
         continue;
       };
